@@ -42,6 +42,10 @@ const SLOW_MS: u64 = 5000;
 /// peak RSS of a worker above this after a case is a "memory" violation (after confirmation)
 const RSS_LIMIT_MB: u64 = 1024;
 const BATCH: usize = 32;
+/// The property wants a failing run to name "the file".  Image extraction reports per-image problems
+/// ("skipping '<out>/x.png': cannot transcode ...", "while writing '<out>/x.png': ...") naming the OUTPUT
+/// image path, not the ANM file.  Strict reading (false): that is a violation `error-not-naming-file`.
+const EXTRACT_OUTPUT_PATH_COUNTS_AS_NAMING: bool = false;
 
 // run kinds (bits of a case's run mask)
 const RUN_DEFAULT: u8 = 1;
@@ -737,7 +741,13 @@ impl<'a> Gen<'a> {
         let mut out = vec![];
         let n = self.seeds[seed].bytes.len();
         let runs = self.seeds[seed].all_runs() & (RUN_DEFAULT | RUN_EXTRACT);
-        let fields: Vec<Field> = self.states[seed].fields.iter().filter(|f| f.width <= 4).cloned().collect();
+        let mut fields: Vec<Field> = self.states[seed].fields.iter().filter(|f| f.width <= 4).cloned().collect();
+        let est = |k: usize| k * k.saturating_sub(1) / 2 * 25;
+        if est(fields.len()) > max_cases {
+            // too many: keep the structural fields (counts, sizes, offsets, ids, instruction headers and arguments), drop pure geometry
+            const GEOMETRY: [&str; 8] = ["quad.float", "object.pos", "object.size", "instance.pos", "sprite.x", "sprite.y", "sprite.w", "sprite.h"];
+            fields.retain(|f| !GEOMETRY.contains(&f.name));
+        }
         let vals: Vec<Vec<u64>> = fields.iter().map(|f| pair_values(read_le(&self.seeds[seed].bytes, f.off, f.width), f.width, n)).collect();
         let mut capped = false;
         'outer: for i in 0..fields.len() {
@@ -798,9 +808,27 @@ fn norm_line(line: &str, display: &str) -> String {
     s.chars().take(100).collect()
 }
 
+/// The source text of the panicking line (digits squashed), to tell apart generic messages such as
+/// "assertion `left == right` failed" raised at different places of one file without using line numbers.
+fn panic_src_line(text: &str) -> Option<String> {
+    let mut parts = text.splitn(3, ':');
+    let file = parts.next()?;
+    let line: usize = parts.next()?.trim().parse().ok()?;
+    if !file.contains("/src/") || file.starts_with("/rustc/") { return None; }
+    thread_local! { static FILES: std::cell::RefCell<HashMap<String, Option<Vec<String>>>> = std::cell::RefCell::new(HashMap::new()); }
+    FILES.with(|f| {
+        let mut f = f.borrow_mut();
+        let lines = f.entry(file.to_string()).or_insert_with(|| std::fs::read_to_string(file).ok().map(|s| s.lines().map(String::from).collect()));
+        let l = lines.as_ref()?.get(line.checked_sub(1)?)?;
+        let l = squash_digits(l.split("//").next().unwrap_or("").trim());
+        if l.is_empty() { None } else { Some(l.chars().take(70).collect()) }
+    })
+}
+
 fn classify(fmt: &str, display: &str, ok: bool, diag: &str, panic: Option<Panic>) -> (String, Option<String>) {
     if let Some(p) = panic {
-        return ("panic".into(), Some(format!("C16:{fmt}:{}", p.signature())));
+        let src = panic_src_line(&p.text).map(|l| format!(" @ {l}")).unwrap_or_default();
+        return ("panic".into(), Some(format!("C16:{fmt}:{}{src}", p.signature())));
     }
     if ok {
         let warn = diag.lines().any(|l| l.starts_with("warning"));
@@ -808,12 +836,15 @@ fn classify(fmt: &str, display: &str, ok: bool, diag: &str, panic: Option<Panic>
     }
     match diag.lines().find(|l| l.starts_with("error") || l.starts_with("bug")) {
         None => {
-            let first = diag.lines().find(|l| !l.trim().is_empty()).unwrap_or("<no diagnostic at all>");
+            // the diagnostic emitted right before the Err is the last one rendered
+            let first = diag.lines().rev().find(|l| l.starts_with("warning") || l.starts_with("note") || l.starts_with("help"))
+                .or_else(|| diag.lines().find(|l| !l.trim().is_empty())).unwrap_or("<no diagnostic at all>");
             ("err-without-error-diagnostic".into(), Some(format!("C16:{fmt}:error-without-error-diagnostic:{}", norm_line(first, display))))
         },
         Some(l) => {
             let cls = format!("err:{}", norm_line(l, display));
-            let viol = if diag.contains(display) { None } else { Some(format!("C16:{fmt}:error-not-naming-file:{}", norm_line(l, display))) };
+            let named = diag.contains(display) || (EXTRACT_OUTPUT_PATH_COUNTS_AS_NAMING && l.contains(" '") && (l.starts_with("error: skipping '") || l.starts_with("error: while ")));
+            let viol = if named { None } else { Some(format!("C16:{fmt}:error-not-naming-file:{}", norm_line(l, display))) };
             (cls, viol)
         },
     }
@@ -840,6 +871,7 @@ fn extract_in_process(game: Game, bytes: &[u8], display: &str, dir: &Path) -> (b
 fn exec_run(seed: &Seed, bytes: &[u8], bit: u8, scratch: &Path) -> RunOut {
     let display = seed.display();
     let t0 = Instant::now();
+    let cpu0 = thread_cpu_ms();
     let (ok, diag, panic) = match RUNS.iter().find(|r| r.0 == bit).and_then(|r| r.2) {
         Some(optbits) => {
             let o = drive::decompile(Tool::new(seed.kind, seed.game), bytes, &DecompOpts { options: drive::options_from_bits(optbits), display_name: &display, ..Default::default() });
@@ -853,11 +885,20 @@ fn exec_run(seed: &Seed, bytes: &[u8], bit: u8, scratch: &Path) -> RunOut {
             r
         },
     };
-    let ms = t0.elapsed().as_millis() as u64;
+    let wall_ms = t0.elapsed().as_millis() as u64;
+    // the time budget is judged on CPU time of this thread (robust against a loaded machine); wall time if unavailable
+    let ms = match (cpu0, thread_cpu_ms()) { (Some(a), Some(b)) if wall_ms >= 1000 => b.saturating_sub(a).min(wall_ms), _ => wall_ms };
     let site = panic.as_ref().map(|p| p.text.lines().take(3).collect::<Vec<_>>().join(" / "));
     let (class, viol) = classify(seed.fmt(), &display, ok, &diag, panic);
     let diag = match site { Some(t) => format!("PANIC {t}\n{diag}"), None => diag };
     RunOut { bit, class, viol, ms, diag }
+}
+
+/// CPU time consumed by the calling thread so far, ms (Linux scheduler statistics)
+fn thread_cpu_ms() -> Option<u64> {
+    let s = std::fs::read_to_string("/proc/thread-self/schedstat").ok()?;
+    let ns: u64 = s.split_whitespace().next()?.parse().ok()?;
+    Some(ns / 1_000_000)
 }
 
 fn vm_hwm_mb() -> Option<u64> {
@@ -1023,7 +1064,7 @@ struct RunRes { bit: u8, class: String, viol: Option<String>, ms: u64, diag: Opt
 
 #[derive(Debug, Clone)]
 enum CaseResult {
-    Done { runs: Vec<RunRes>, hwm_mb: Option<u64> },
+    Done { runs: Vec<RunRes>, hwm_mb: Option<u64>, slow_confirmed: bool },
     /// the worker died (`abort`) or stopped answering (`timeout`) on this case, twice
     Died { kind: &'static str, info: String },
     /// protocol-level problem
@@ -1044,7 +1085,7 @@ fn parse_reply(s: &str) -> Result<(u64, CaseResult), String> {
             diag: r[4].as_str().map(String::from),
         });
     }
-    Ok((id, CaseResult::Done { runs, hwm_mb: v["m"].as_u64() }))
+    Ok((id, CaseResult::Done { runs, hwm_mb: v["m"].as_u64(), slow_confirmed: false }))
 }
 
 fn case_line(c: &Case) -> String { format!("{} {} {} {}\n", c.id, c.seed, fault_to_string(&c.ops), c.runs) }
@@ -1089,6 +1130,10 @@ impl Pool {
         match run_isolated(&self.tier, &self.digest, &case_line(c)) {
             Iso::Died(info2) => { *self.confirmed.lock().unwrap().entry(format!("abort:{death_key}")).or_insert(0) += 1; CaseResult::Died { kind: "abort", info: format!("{info2} (first: {kind}: {info})") } },
             Iso::Timeout => { *self.confirmed.lock().unwrap().entry(format!("timeout:{death_key}")).or_insert(0) += 1; CaseResult::Died { kind: "timeout", info: format!("no answer within {}s, twice (first: {kind}: {info})", ANSWER_TIMEOUT.as_secs()) } },
+            Iso::Result(CaseResult::Done { runs, hwm_mb, .. }) if kind == "timeout" && runs.iter().any(|r| r.ms > SLOW_MS) => {
+                // no answer within the timeout the first time, and over the time budget again: confirmed slow
+                CaseResult::Done { runs, hwm_mb, slow_confirmed: true }
+            },
             Iso::Result(r) => {
                 self.note_machinery(format!("irreproducible worker {kind} on case seed#{} fault {} runs {} ({info}); a fresh worker completed it", c.seed, fault_to_string(&c.ops), c.runs));
                 r
@@ -1239,7 +1284,11 @@ pub fn run(tier: &str) -> Report {
     let mut gen = Gen::new(&seeds);
     for (i, s) in seeds.iter().enumerate() {
         if let Some(e) = &gen.states[i].walker_error { rep.discard(&format!("no structure map for seed {} (walker: {}): byte faults and truncations only", s.name, e.chars().take(100).collect::<String>())); }
-        if dump { eprintln!("seed {i} {} {:?}/{} len={} fields={}", s.name, s.kind, s.game.as_str(), s.bytes.len(), gen.states[i].fields.len()); }
+        if dump {
+            eprintln!("seed {i} {} {:?}/{} len={} fields={}", s.name, s.kind, s.game.as_str(), s.bytes.len(), gen.states[i].fields.len());
+            let _ = std::fs::create_dir_all("/tmp/c16seeds");
+            let _ = std::fs::write(format!("/tmp/c16seeds/{}", s.display()), &s.bytes);
+        }
     }
 
     let pool = Pool::new(tier, &digest, n_threads());
@@ -1261,7 +1310,7 @@ pub fn run(tier: &str) -> Report {
             agg.transitions += 1;
             let mut default_class: Option<String> = None;
             match r {
-                CaseResult::Done { runs, hwm_mb } => {
+                CaseResult::Done { runs, hwm_mb, slow_confirmed } => {
                     for rr in &runs {
                         agg.evaluations += 1;
                         agg.max_ms = agg.max_ms.max(rr.ms);
@@ -1276,7 +1325,7 @@ pub fn run(tier: &str) -> Report {
                         if let Some(sig) = &rr.viol {
                             let kind = if rr.class == "panic" { "panic" } else { "diagnostic" };
                             if kind == "panic" {
-                                let site = rr.diag.as_deref().and_then(|d| d.lines().next()).unwrap_or("").trim_start_matches("PANIC ").to_string();
+                                let site = rr.diag.as_deref().and_then(|d| d.lines().next()).unwrap_or("").trim_start_matches("PANIC ").split(" / ").next().unwrap_or("").to_string();
                                 let e = agg.panic_sites.entry(sig.clone()).or_default().entry(site).or_insert((0, u64::MAX, String::new(), String::new(), String::new()));
                                 e.0 += 1;
                                 if c.id < e.1 { *e = (e.0, c.id, seed.name.clone(), fault_to_string(&c.ops), run_label(rr.bit).to_string()); }
@@ -1286,7 +1335,7 @@ pub fn run(tier: &str) -> Report {
                         if rr.ms > SLOW_MS && seed.bytes.len() < 4096 {
                             // confirm in a fresh worker
                             let one = Case { runs: rr.bit, ..c.clone() };
-                            let again = match run_isolated(tier, &digest, &case_line(&one)) { Iso::Result(CaseResult::Done { runs, .. }) => runs.first().map(|x| x.ms), Iso::Timeout => Some(u64::MAX), _ => None };
+                            let again = if slow_confirmed { Some(rr.ms) } else { match run_isolated(tier, &digest, &case_line(&one)) { Iso::Result(CaseResult::Done { runs, .. }) => runs.first().map(|x| x.ms), Iso::Timeout => Some(u64::MAX), _ => None } };
                             if again.map_or(false, |ms| ms > SLOW_MS) {
                                 agg.violation(format!("C16:{fmt}:slow:{class}"), c.id, || witness(&seeds, c, &class, run_label(rr.bit), "slow", json!({"ms": [rr.ms, again]})));
                             } else { agg.slow_unconfirmed += 1; }
@@ -1437,7 +1486,7 @@ pub fn replay(detail: &Value) -> i32 {
         Iso::Died(info) => { println!("  worker DIED: {info}"); drive::cleanup_scratch(); 1 },
         Iso::Timeout => { println!("  worker did not answer within {} s (killed)", ANSWER_TIMEOUT.as_secs() + 10); drive::cleanup_scratch(); 1 },
         Iso::Machinery(e) => { println!("  machinery error: {e}"); drive::cleanup_scratch(); 2 },
-        Iso::Result(CaseResult::Done { runs, hwm_mb }) => {
+        Iso::Result(CaseResult::Done { runs, hwm_mb, .. }) => {
             let mut bad = false;
             for r in &runs {
                 println!("  run {:<12} -> class {:?} ({} ms){}", run_label(r.bit), r.class, r.ms, r.viol.as_ref().map(|v| format!("  VIOLATION {v}")).unwrap_or_default());
